@@ -52,6 +52,7 @@ type proxy struct {
 	l      net.Listener
 	connMu sync.Mutex
 	a, b   net.Conn // a: plugin side, b: runtime side
+	wmu    sync.Mutex // serialises forwarding writes of both directions with inject+cut: an injected partial frame is the last thing its receiver gets
 	dirs   [2]*pdir
 	cutOnce sync.Once
 	cutC   chan struct{}
@@ -115,6 +116,11 @@ func (px *proxy) forward(d int, src, dst net.Conn, chunk []byte) bool {
 	k := len(chunk)
 	if pd.armed && pd.remain < k {
 		k = pd.remain
+	}
+	px.wmu.Lock()
+	defer px.wmu.Unlock()
+	if px.isCut() {
+		return false
 	}
 	if k > 0 {
 		if _, err := dst.Write(chunk[:k]); err != nil {
@@ -235,6 +241,38 @@ func (px *proxy) armInject(d, n int, partial []byte) error {
 	pd.inject = partial
 	pd.mu.Unlock()
 	return nil
+}
+
+// injectNow writes the given bytes (the beginning of a frame) towards the
+// receiver of direction d and cuts the trunk: the sender of direction d died
+// in the middle of a write while nothing else was going on.
+func (px *proxy) injectNow(d int, partial []byte) {
+	px.connMu.Lock()
+	dst := px.b
+	if d == r2p {
+		dst = px.a
+	}
+	px.connMu.Unlock()
+	px.wmu.Lock()
+	defer px.wmu.Unlock()
+	if dst != nil && !px.isCut() {
+		dst.Write(partial)
+	}
+	px.cut()
+}
+
+// firstFrameForwarded reports whether the first frame of the exchange in
+// direction d went through completely (for p2r: the plugin's reply reached the
+// runtime's socket before the cut).
+func (px *proxy) firstFrameForwarded(d int) bool {
+	pd := px.dirs[d]
+	pd.mu.Lock()
+	defer pd.mu.Unlock()
+	if len(pd.frames) == 0 {
+		return false
+	}
+	f := pd.frames[0]
+	return pd.forwarded >= f.Off+8+f.Len
 }
 
 type exchange struct {
